@@ -329,6 +329,18 @@ def durations(ctx: Ctx):
             ok = len(e.call.args) >= 3 and flow.dump(e.call.args[2]) == f"{sim}.sim_timestep_duration_seconds"
     ctx.check(ok, "D5", "BD.duration", "charge(): add_energy receives the state's own sim_timestep_duration_seconds", fn,
               why_bad="other duration passed", construct="charge:duration")
+    # the plug whose rate bounds the step is the station's OWN instance of that plug type (its rate can be throttled
+    # locally), not the environment's prototype
+    ok = False
+    got = "?"
+    sid, cid = fn.params[3:5]
+    for p in flow.paths(fn.node):
+        for e in p.calls("add_energy"):
+            if len(e.call.args) >= 2:
+                got = states.ndump(e.call.args[1])
+                ok = got == f"{sim}.stations.get({sid}).get_charger_instance({cid})[1]"
+    ctx.check(ok, "D5", "BD.plug-instance", "charge(): the charger given to add_energy is the station's own instance of the plug (whose rate is what the plug can deliver)", fn,
+              why_bad=f"add_energy charges with {got[:100]}: a plug throttled at the station would still deliver its factory rate", construct="charge:plug-instance")
     fn = repo.func(BEV, "BEV.add_energy")
     dur = fn.params[3]
     ok = False
